@@ -24,6 +24,7 @@ import NemoVerif.Lemmas.RoundMachine
 import NemoVerif.Lemmas.SlideGraphComplete
 import NemoVerif.Lemmas.ErrFrameAdvVM
 import NemoVerif.Lemmas.ErrFrameCorVM
+import NemoVerif.Lemmas.ErrLeafVM
 import NemoVerif.Lemmas.SlideStepVM
 
 namespace NemoVerif.C10
@@ -503,6 +504,32 @@ theorem vm_evaluation_read_only (f : FUid) (e : Expr) (sp : Spec) (ev : Event) (
     Same s (outState (evalIn f e s)) ∧ Same s (outState (getEvent f sp b s)) ∧ Same s (outState (eventMatchingScore f sp ev s)) :=
   ⟨(Same.evalIn f e).app s, (Same.getEvent f sp b).app s, (Same.eventMatchingScore f sp ev).app s⟩
 
+/-- **conditional no-propagation on CoreVM** (`vm_leaf_error_never_propagates`): the hypotheses of `vm_error_contained`, and at the
+    moment of the raise the faulty instance is a LEAF — no child flows, no actions, its own context dict, its parent (if any)
+    exists and, when the instance is not activated, lists it (`Leafish1`; decidable on a concrete state, checked at run time on
+    the real `FlowState`s).  Then NO Python-level exception leaves `_advance_head_front`: the call returns normally (clauses (1),
+    (2) of `vm_error_contained` apply) or the model stops for a reason that says nothing about Python (fuel / unsupported /
+    index guard).  [For instances with children or actions `_abort_flow` recurses / releases actions; there the provenance
+    clause of `vm_error_contained` is what is proved.] -/
+theorem vm_leaf_error_never_propagates (fuel : Nat) (k : Key) (s s1 s2 : VM) (i : Inst) (hd hd2 : Head) (cfg : FlowCfg)
+    (c m : String) (starting : Bool) (par : Option FUid) (act : Int)
+    (hi : findInst s.ixs.ix k.1 = some i) (hl : i.status.listening = true)
+    (hcfg : cfgOfInst k.1 s = .ok cfg s)
+    (hhd : i.findHead k.2 = some hd) (hact : hd.status = .active)
+    (hpre : (do
+        setHeadPos k (hd.pos + 1)
+        if (← getInst k.1).status = FlowStatus.waiting then setFlowStatus k.1 FlowStatus.starting
+        pure (decide ((← getInst k.1).status = FlowStatus.starting))) s = .ok starting s1)
+    (hraise : (do
+        let newHeads ← slide (fuel + 1) k.1 k.2
+        if newHeads.isEmpty then pure [] else advanceHeadFront (fuel + 1) newHeads) s1 = .error (.py c m) s2)
+    (hhd2 : (findInst s2.ixs.ix k.1).bind (·.findHead k.2) = some hd2) (hpos : hd2.pos < cfg.elements.size)
+    (hleaf : Leafish1 k.1 par act s2) :
+    ∀ c' m' s', advanceHeadFront (fuel + 2) [k] s ≠ .error (.py c' m') s' := by
+  rw [advance_error_path (fuel + 1) k s s1 s2 i hd hd2 cfg c m starting hi hl hcfg hhd hact hpre hraise hhd2 hpos]
+  exact errHandler_leaf_no_py fuel k rfl c m starting s2 hleaf
+
+
 /-! ### frame: a family `G` of instances closed under child / scope flows, owning its contexts -/
 
 /-- `_abort_flow` on a member of `G` — any `deactivate_flow`, any outcome — leaves every instance outside `G` untouched: same
@@ -708,4 +735,29 @@ example : ∃ (P : RoundMachine.RProg) (fl : RoundMachine.RFlow) (i : Inst) (hd 
     P[0]? = some fl ∧ fl.ctl = classify demoCfg ∧ fl.emit.getD hd.pos [] = [] ∧ slideStep 3 "f" "h" demoVM = .ok b s' :=
   ⟨[{ ctl := classify demoCfg, emit := [[], []], wk := [.ext, .ext], restartable := false }], _, _, _, _, _,
     rfl, rfl, rfl, by decide, by decide, rfl, rfl, rfl, rfl, rfl, rfl, rfl⟩
+
+/-- witness with a parent: `m` (main) lists the faulty instance `f` as its child -/
+def demoVM3 : VM :=
+  { ixs := demoIx,
+    r := { prog := ⟨[demoCfg]⟩,
+           fx := [("m", { flowId := "main", loopId := none, hierPos := "0", childFlowUids := ["f"] }),
+                  ("f", { flowId := "f", loopId := none, hierPos := "0.0", parentUid := some "m" })],
+           hx := [(("f", "h"), {})] } }
+
+/-- non-vacuity of `vm_leaf_error_never_propagates`: the leaf hypothesis holds at the raise state of the concrete run … -/
+example : ∃ (s1 s2 : VM) (c m : String),
+    (do
+        setHeadPos ("f", "h") 1
+        if (← getInst "f").status = FlowStatus.waiting then setFlowStatus "f" FlowStatus.starting
+        pure (decide ((← getInst "f").status = FlowStatus.starting))) demoVM3 = .ok true s1 ∧
+    (do
+        let newHeads ← slide 3 "f" "h"
+        if newHeads.isEmpty then pure [] else advanceHeadFront 3 newHeads) s1 = .error (.py c m) s2 ∧
+    Leafish1 "f" (some "m") 0 s2 :=
+  ⟨_, _, _, _, rfl, rfl,
+    ⟨⟨⟨_, rfl, ⟨rfl, rfl, rfl, rfl, rfl⟩⟩, rfl, fun p h => by cases h; rfl⟩, fun _ p h => by cases h; exact ⟨_, rfl, by decide⟩⟩⟩
+/-- … and the computed run: normal return, the parent no longer lists `f`, `f` is STOPPED -/
+example : ∃ s', advanceHeadFront 4 [("f", "h")] demoVM3 = .ok [] s' ∧
+    (OMap.lookup "m" s'.r.fx).map (·.childFlowUids) = some [] ∧ (findInst s'.ixs.ix "f").map (·.status) = some .stopped :=
+  ⟨_, rfl, rfl, rfl⟩
 end NemoVerif.C10.VM
